@@ -90,6 +90,8 @@ fn four_reps<S: Sc>(d: &mut Draw) -> Outcome {
     ensure_eq!(Matrix3::from(bl.iter().product::<Basis3<S>>()), want3, "product-basis3-refs", "Product over &Basis3 = Basis3(p q r)");
     ensure_eq!(Matrix3::from(bl.iter().cloned().product::<Basis3<S>>()), want3, "product-basis3-values", "Product over Basis3 = Basis3(p q r)");
     ensure_eq!(Matrix3::from(bl[..1].iter().product::<Basis3<S>>()), pm, "product-basis3-single", "Product of one Basis3");
+    ensure_eq!(Matrix3::from(bl.iter().filter(|_| true).product::<Basis3<S>>()), want3, "product-basis3-unsized-refs", "Product over a filtered iterator of &Basis3");
+    ensure_eq!(Matrix3::from(bl.iter().cloned().filter(|_| true).product::<Basis3<S>>()), want3, "product-basis3-unsized-values", "Product over a filtered iterator of Basis3");
     ensure_eq!(Matrix3::from(bl[..0].iter().product::<Basis3<S>>()), Matrix3::identity(), "product-basis3-empty", "empty Product of Basis3 is the identity");
     let ql = [p, q, r];
     ensure_eq!(Matrix3::from(ql.iter().product::<Quaternion<S>>()), want3, "product-quaternion-refs", "Product over &Quaternion");
@@ -99,6 +101,27 @@ fn four_reps<S: Sc>(d: &mut Draw) -> Outcome {
     ensure_eq!(ml.iter().cloned().product::<Matrix3<S>>(), want3, "product-matrix3-values", "Product over Matrix3");
     let ml4 = [Matrix4::from(p), m4, Matrix4::from(r)];
     ensure_eq!(ml4.iter().product::<Matrix4<S>>(), Matrix4::from(p * q * r), "product-matrix4-refs", "Product over &Matrix4");
+    // composition through the Transform entry points of the matrices (by value and in place), and in-place rotation products
+    {
+        use cgmath::{Point2, Point3, Transform};
+        let m32 = Matrix3::from(p * q);
+        ensure_eq!(Transform::<Point3<S>>::concat(&pm, &m3), m32, "matrix3-concat", "Matrix3 (3-D transform): concat(M(p), M(q)) = M(pq)");
+        let mut c = pm;
+        Transform::<Point3<S>>::concat_self(&mut c, &m3);
+        ensure_eq!(c, m32, "matrix3-concat_self", "Matrix3 (3-D transform): M(p).concat_self(M(q)) = M(pq)");
+        ensure_eq!(Transform::<Point2<S>>::concat(&pm, &m3), m32, "matrix3-2d-concat", "Matrix3 (2-D transform): concat(M(p), M(q)) = M(pq)");
+        let mut c = pm;
+        Transform::<Point2<S>>::concat_self(&mut c, &m3);
+        ensure_eq!(c, m32, "matrix3-2d-concat_self", "Matrix3 (2-D transform): M(p).concat_self(M(q)) = M(pq)");
+        let m42 = Matrix4::from(p * q);
+        ensure_eq!(Transform::<Point3<S>>::concat(&Matrix4::from(p), &m4), m42, "matrix4-concat", "Matrix4: concat(M(p), M(q)) = M(pq)");
+        let mut c = Matrix4::from(p);
+        Transform::<Point3<S>>::concat_self(&mut c, &m4);
+        ensure_eq!(c, m42, "matrix4-concat_self", "Matrix4: M(p).concat_self(M(q)) = M(pq)");
+        // the inverse rotation through every representation's own inverse
+        ensure_eq!(Transform::<Point3<S>>::inverse_transform(&m3), Some(Matrix3::from(q.conjugate())), "matrix3-inverse_transform", "Matrix3::from(q).inverse_transform() = M(conj q)");
+        ensure_eq!(Transform::<Point3<S>>::inverse_transform(&m4), Some(Matrix4::from(q.conjugate())), "matrix4-inverse_transform", "Matrix4::from(q).inverse_transform() = M4(conj q)");
+    }
     // conversions through the other spellings
     let b3i: Basis3<S> = q.into();
     ensure_eq!(b3i, b3, "quaternion-into-basis3", "Into<Basis3>");
